@@ -384,7 +384,7 @@ def gen_oracle_session(rng, cpu, with_sim=False):
                 add_print(("print", w2, a, last_unit if last_unit > a else None))
         k = rng.random()
         if k < 0.3:
-            b = rng.choice(["open", a + rng.randrange(0, 5), None])
+            b = rng.choice(["open", min(TOP // bpa, a + rng.randrange(0, 5)), None])
             lines.append(G.op_text(rng, ("disasm", 8, a, b), byval))
             expect.append((len(lines) - 1, "disasm-op", (a, b)))
         elif k < 0.45:
@@ -446,6 +446,8 @@ def judge_session(s, per_cmd, orc, engine):
                 gv, ev = [w for w in got if w[0] == "v"], [w for w in exp if w[0] == "v"]
                 gr, er = [w for w in got if w[0] == "r"], [w for w in exp if w[0] == "r"]
                 cls = "print-count" if len(gv) != len(ev) else "print-values" if gv != ev else "print-labels" if gr != er else "print"
+                if start + count * G.NB[width] == TOP + 1 and got == exp[:len(got)] and len(gv) == len(ev) - 1:
+                    cls = "print-top"        # everything but the value that holds the byte at 0xffffffff
                 fail(cls, line, " ".join(exp), " ".join(got), "listing differs from the image the commands built")
             orc["stats"]["prints"] = orc["stats"].get("prints", 0) + 1
         elif kind == "disasm-op":
@@ -505,7 +507,16 @@ def oracle(ctx, orc, focus=None):
         per_cmd = [G.parse_command_output(w, p) for w, p in zip(words, parts)]
         judge_session(s, per_cmd, orc, "harness")
     # ---- B. the same kind of sessions through the real executable (the real command loop of main()) ----
-    psessions = [s for s in sessions if not s["syms"]]
+    # (symbols cannot be given to the executable without an ELF file; the disassemblers of the other CPUs are C08's
+    # business — several do not return on arbitrary bytes — so `disasm` stays in the sessions of the MSP430 only)
+    def proc_view(s):
+        if s["cpu"]["name"] == "msp430":
+            return s
+        keep = [i for i, l in enumerate(s["lines"]) if not l.startswith("disasm")]
+        remap = {old: new for new, old in enumerate(keep)}
+        return dict(s, lines=[s["lines"][i] for i in keep],
+                    expect=[(remap[i], k, d) for (i, k, d) in s["expect"] if i in remap])
+    psessions = [proc_view(s) for s in sessions if not s["syms"]]
     psessions = psessions[:: max(1, len(psessions) // ctx.scale(40, 300))][:ctx.scale(40, 300)]
     from concurrent.futures import ThreadPoolExecutor
     with ThreadPoolExecutor(8) as ex:
@@ -547,7 +558,7 @@ def special_asm(ctx, orc, names):
         for variant in range(ctx.scale(3, 12)):
             org = rng.choice([0x10, 0x200, 0x1000, 0x8000 // bpa, 0xfff8 // bpa])
             b1 = [rng.getrandbits(8) for _ in range(rng.choice([2, 4, 6]) * bpa)]
-            gap = rng.choice([0, 0, 4, 0x20])
+            gap = 4 if variant == 0 else rng.choice([0, 0, 4, 0x20])      # every run probes the known gap finding
             b2 = [rng.getrandbits(8) for _ in range(2 * bpa)] if gap else []
             w3 = [rng.getrandbits(16) for _ in range(2 * max(1, bpa // 2))]
             src = [".db " + ", ".join(str(x) for x in b1)]
@@ -559,7 +570,11 @@ def special_asm(ctx, orc, names):
             end1 = (org2 + len(b2) // bpa) if gap else org + len(b1) // bpa
             pre = [0x11, 0x22, 0x33, 0x44, 0x55, 0x66, 0x77, 0x88]
             lo_u = max(0, org - 4)
-            lines = ["write %s %s" % (hex(lo_u), " ".join(hex(0xa0 + (i & 15)) for i in range((end1 - lo_u + 12) * bpa)))]
+            fill = [0xa0 + (i & 15) for i in range((end1 - lo_u + 12) * bpa)]
+            lines = []
+            for off in range(0, len(fill), 64):             # lines stay far below the 1023 byte buffer of main()
+                lines.append("write %s %s" % (hex(lo_u + off // bpa), " ".join(hex(x) for x in fill[off:off + 64])))
+            nfill = len(lines)
             lines += ["asm %s" % rng.choice([hex(org), str(org)])] + src + [""]
             lines += ["asm"] + src2 + [""]
             lines += ["print %s-%s" % (hex(lo_u), hex(end1 + 11))]
@@ -572,7 +587,8 @@ def special_asm(ctx, orc, names):
             exp_bytes = [ref.cells.get(a, 0) for a in range(lo_u * bpa, (end1 + 12) * bpa)]
             for engine in ("harness", "process"):
                 if engine == "harness":
-                    s = {"cpu": cpu, "syms": {}, "lines": lines, "asm": [(1, "\n".join(src)), (1 + len(src) + 2, "\n".join(src2))]}
+                    s = {"cpu": cpu, "syms": {}, "lines": lines,
+                         "asm": [(nfill, "\n".join(src)), (nfill + len(src) + 2, "\n".join(src2))]}
                     res = resolve_asm(ctx, [s])[0]
                     a = impl(ctx, [session_line(s, res)])[0]
                     if a.startswith("DIED") or not re.fullmatch(r"[0-9a-f]+", a):
@@ -599,7 +615,7 @@ def special_asm(ctx, orc, names):
     # asm then disasm on the MSP430: the text of the source comes back
     cpu = names["msp430"]
     for _ in range(ctx.scale(3, 20)):
-        org = rng.choice([0x200, 0x1000, 0xf800, 0xfffa])
+        org = rng.choice([0x200, 0x1000, 0xf800, 0x7ffc])     # (from 0xffe0 on the MSP430 disassembler lists vectors)
         v1, v2 = rng.getrandbits(16) | 0x100, rng.getrandbits(16) | 0x100
         lines = ["asm %s" % hex(org), "mov.w #0x%04x, r5" % v1, "mov.w #0x%04x, r6" % v2, "", "disasm %s-%s" % (hex(org), hex(org + 7)),
                  "print16 %s-%s" % (hex(org), hex(org + 7))]
@@ -698,6 +714,17 @@ def special_top(ctx, orc, names):
             orc["failures"].append({"sig": "C19:print-values:%s:%s" % (cpuname, lines[2]), "input": "\n".join(lines), "expected": "11 22 33",
                                     "observed": " ".join(g2), "what": "listing below the top of memory",
                                     "replay": {"cpu": cpuname, "syms": {}, "lines": lines, "engine": "harness"}})
+        # the image whose only byte is at 0xffffffff (known finding: low_address sentinel)
+        l2 = ["write 0xffffffff 0x5a", "disasm"]
+        a2 = impl(ctx, [session_line({"cpu": cpu, "syms": {}, "lines": l2}, [])])[0]
+        orc["cases"] += 1
+        if re.fullmatch(r"[0-9a-f]+", a2):
+            p2 = nvlib.unhex(a2).decode("latin-1").split("@@\n")[1:]
+            if [w for w in G.parse_command_output("disasm", p2[1])] != ["dffffffff-ffffffff"]:
+                orc["failures"].append({"sig": "C19:top-sentinel:%s:%s" % (cpuname, l2[1]), "input": "\n".join(l2),
+                                        "expected": "dffffffff-ffffffff", "observed": p2[1][:100],
+                                        "what": "an image whose only byte is at 0xffffffff counts as empty (low_address sentinel)",
+                                        "replay": {"cpu": cpuname, "syms": {}, "lines": l2, "engine": "harness"}})
         if g1 != ["v11", "v22", "v33", "v44"]:
             orc["failures"].append({"sig": "C19:print-top:%s:%s" % (cpuname, lines[1]), "input": "\n".join(lines), "expected": "11 22 33 44",
                                     "observed": " ".join(g1), "what": "the byte at address 0xffffffff is never listed (32-bit loop bound)",
